@@ -67,6 +67,8 @@ def rand_ballots(rng, n=None, **kw):
             b["w"] = rng.choice(["1", "2", "1/2", "5"])
         if b.get("r") and rng.random() < 0.3:       # same content, groups written in another order
             b["r"] = [list(reversed(g)) for g in b["r"]]
+        if b.get("s") and len(b["s"]) > 1 and rng.random() < 0.4:   # same scores, dict filled in another order
+            b["s"] = dict(reversed(list(b["s"].items())))
         out.append(b)
     return out, names
 
